@@ -525,8 +525,14 @@ def struct_cases(draw):
     text = name.endswith("-text")
     t = draw(T.tables(kind="text" if text else "binary", max_fields=5, max_rows=12, big_rows=0,
                       types=T.INTS + T.FLOATS, allow_mixed_order=True))
-    return {"call": name, "table": t, "layout": draw(st.sampled_from(["contig", "strided", "offset"])),
+    case = {"call": name, "table": t, "layout": draw(st.sampled_from(["contig", "strided", "offset"])),
             "delim": draw(st.sampled_from([",", " ", "\t"])), "pick": draw(st.integers(0, 10 ** 6))}
+    if text:
+        # the text writers' documented options, and an earlier write of a native table through the same handle
+        case["padnull"] = draw(st.booleans())
+        case["ignorenull"] = draw(st.sampled_from([False, False, True]))
+        case["native_first"] = draw(st.booleans())
+    return case
 
 
 def _struct_view(case):
@@ -560,21 +566,35 @@ def check_struct(case, ctx):
     fname = ctx.tmpfile("t.rec")
     delim = case["delim"]
 
+    tkw = {}
+    if case.get("padnull"):
+        tkw["padnull"] = True
+    if case.get("ignorenull"):
+        tkw["ignorenull"] = True
+    nat = None
+    if case.get("native_first"):
+        nat = np.ascontiguousarray(view).astype(view.dtype.newbyteorder("="))
+        extra.append((nat, nat, _snap(nat, nat)))
+
     def run():
         if name == "sfile.write":
             return sfile.write(fname, view)
         if name == "sfile.write-text":
-            return sfile.write(fname, view, delim=delim)
+            return sfile.write(fname, view, delim=delim, **tkw)
         if name == "sfile.write-append":
             sfile.write(fname, view)
             return sfile.write(fname, view, append=True)
         if name in ("SFile.write", "SFile.write-text"):
-            with sfile.SFile(fname, "w", delim=delim if name.endswith("-text") else None) as sf:
+            with sfile.SFile(fname, "w", delim=delim if name.endswith("-text") else None, **tkw) as sf:
+                if nat is not None:
+                    sf.write(nat)
                 sf.write(view)
                 sf.write(view)
             return None
         if name in ("Recfile.write", "Recfile.write-text"):
-            with recfile.Recfile(fname, "w", delim=delim if name.endswith("-text") else None) as r:
+            with recfile.Recfile(fname, "w", delim=delim if name.endswith("-text") else None, **tkw) as r:
+                if nat is not None:
+                    r.write(nat)
                 r.write(view)
             return None
         if name == "recfile.write":
@@ -582,7 +602,7 @@ def check_struct(case, ctx):
         if name == "io.write":
             return es.io.write(fname, view)
         if name == "io.write-text":
-            return es.io.write(fname, view, delim=delim)
+            return es.io.write(fname, view, delim=delim, **tkw)
         if name == "extract_fields":
             return nu.extract_fields(view, [some])
         if name == "remove_fields":
